@@ -4,7 +4,8 @@
    tools/process_seed.py run <ID> <props>  : apply each confirmed patch to /repo, run the quick checks, undo;
                                            store /verif/seeded/<ID>-<n>/{patch.diff, demo*, meta.json}."""
 import sys, os, re, json, glob, subprocess, shutil, concurrent.futures
-ROOT = '/verif'
+ROOT = os.environ.get('SEED_VERIF', '/verif')   # a private copy of /verif may be used (with VERIF_REPO = a scratch worktree)
+REPO = os.environ.get('VERIF_REPO', '/repo')
 
 def patches(ID, root='/tmp/mut'):
     out = []
@@ -64,7 +65,7 @@ elif sys.argv[1] == 'run':
         if not meta.get('confirmed'):
             print(d, 'not confirmed, skipped')
             continue
-        if subprocess.run(['git', '-C', '/repo', 'apply', '--check', os.path.join(d, 'patch.diff')], stderr=subprocess.DEVNULL).returncode != 0:
+        if subprocess.run(['git', '-C', REPO, 'apply', '--check', os.path.join(d, 'patch.diff')], stderr=subprocess.DEVNULL).returncode != 0:
             meta['applies_to_current_repo'] = False
             json.dump(meta, open(os.path.join(d, 'meta.json'), 'w'), indent=1)
             print(os.path.basename(d), 'does not apply to the current /repo (superseded by a repair); earlier result kept')
@@ -82,7 +83,7 @@ elif sys.argv[1] == 'run':
         res = meta.get('result') or {}
         res.update(caught)
         meta['result'] = res
-        meta['repo_commit'] = subprocess.check_output(['git', '-C', '/repo', 'log', '--format=%h', '-1']).decode().strip()
+        meta['repo_commit'] = subprocess.check_output(['git', '-C', REPO, 'log', '--format=%h', '-1']).decode().strip()
         meta['verif_commit'] = subprocess.check_output(['git', '-C', ROOT, 'log', '--format=%h', '-1']).decode().strip()
         meta['ran'] = 'tools/run_seed.sh patch.diff ' + ' '.join(props) + ' (git -C /repo apply; bin/check <prop> --seed 1, then --seed 2 if not detected; git -C /repo checkout -- .)'
         json.dump(meta, open(os.path.join(d, 'meta.json'), 'w'), indent=1)
